@@ -243,6 +243,7 @@ func init() {
 	Register(&Engine{
 		Name: "c18", Prop: "C18",
 		Rule: fmt.Sprintf("case = (one of %d command templates with --seed given, generated input files: tree collections on 6..9 taxa, multifurcating / binary / rooted trees, a "+
+			"Nextstrain export with mutations of several genes per branch, for half of the cases branch lengths that are not dyadic (sums depend on the order of the additions), a "+
 			"protein alignment with the ambiguity code X and gaps, a nucleotide alignment with IUPAC codes, tip states, rename / annotation / tip / group files; thread "+
 			"count 1..4 for threaded commands; two seam settings A and B, each = (map-iteration order seed, wall-clock epoch, goroutine schedule)). The command runs "+
 			"in-process through cmd.RootCmd inside the scheduler under A, under B, (for half of the cases: another template, often of the same command family, in between,) under A again, and — for a share of the cases — as separate OS processes of the "+
